@@ -20,9 +20,16 @@ package utils
 import (
 	"fmt"
 	"os"
+	"strings"
 
 	log "github.com/sirupsen/logrus"
 )
+
+// IsSafePathComponent reports whether a client supplied name can be used as one
+// element of a file path: non-empty, not "." or "..", and without '/', '\\' or NUL.
+func IsSafePathComponent(name string) bool {
+	return name != "" && name != "." && name != ".." && !strings.ContainsAny(name, "/\\\x00")
+}
 
 type WriteMode int
 
